@@ -205,6 +205,35 @@ ConcCase gen_conc(const std::string& property, const std::string& tier, uint64_t
     c.factory_yields = 0;
     return c;
   }
+  if (tier == "hints") {
+    // C14 multi-task hint histories: tasks share one zone and keep overwriting each other's hints.
+    ConcCase c;
+    c.property = property;
+    c.mode = "hints";
+    ZoneSpec z; z.key = "A";
+    static const std::vector<std::string> busy = {"America/New_York", "Europe/London", "Australia/Lord_Howe", "Africa/Casablanca", "Asia/Tehran", "America/Sao_Paulo", "Pacific/Apia"};
+    z.base = "shipped:" + wl.pick(busy);
+    c.zones.push_back(z);
+    const ZoneShape& sh = shape_for_base(z.base);
+    int k = static_cast<int>(wl.range(2, 4));
+    std::vector<Query> pool;
+    int npool = static_cast<int>(wl.range(3, 12));
+    for (int i = 0; i < npool; ++i) pool.push_back(gen_query(&wl, sh, false));
+    for (int t = 0; t < k; ++t) {
+      std::vector<Op> ops;
+      Op l; l.k = O_LOAD; l.z = 0; l.slot = 0; ops.push_back(l);
+      int n = static_cast<int>(wl.range(8, 40));
+      for (int i = 0; i < n; ++i) {
+        Op o; o.k = O_QUERY; o.slot = 0;
+        o.q = wl.chance(0.7) ? wl.pick(pool) : gen_query(&wl, sh, false);
+        ops.push_back(o);
+      }
+      c.tasks.push_back(ops);
+    }
+    gen_sched_knobs(&sc, &c);
+    c.sched.disabled_kinds &= ~((1u << Y_ATOMIC_LD) | (1u << Y_ATOMIC_ST));
+    return c;
+  }
   ConcCase c;
   c.property = property;
   const bool is_c20 = property == "C20", is_c14 = property == "C14";
@@ -705,7 +734,8 @@ Outcome exec_conc(const ConcCase& c, bool keep_log, Stats* stats) {
         std::string zname = first->requested;
         for (const LoadRec* lr : v) {
           if (lr == first || lr->seq_inv < first->seq_ret) continue;
-          if (lr->ok != first->ok) viol(first->ok ? "c14:cache-reload" : "c14:negative-cache", "load(" + zname + ") changed its answer", std::string("first ") + (first->ok ? "true" : "false") + ", later " + (lr->ok ? "true" : "false"));
+          // local_time_zone() has no success flag (UTC can be either outcome): compare handles only.
+          if (!lr->local && !first->local && lr->ok != first->ok) viol(first->ok ? "c14:cache-reload" : "c14:negative-cache", "load(" + zname + ") changed its answer", std::string("first ") + (first->ok ? "true" : "false") + ", later " + (lr->ok ? "true" : "false"));
           else if (!(lr->tz == first->tz)) viol("c14:cache-reload", "load(" + zname + ") returned a different handle the second time", "");
         }
       }
@@ -766,7 +796,7 @@ Outcome exec_conc(const ConcCase& c, bool keep_log, Stats* stats) {
   }
   bool after_toggle = false;
   for (auto& ts : x.toggle_seq) for (const LoadRec& lr : x.loads) if (lr.z == ts.second && lr.seq_inv > ts.first) after_toggle = true;
-  out.nontrivial = overlap || sr.contended_locks > 0 || (c14 && after_toggle);
+  out.nontrivial = overlap || sr.contended_locks > 0 || (c14 && after_toggle) || (c.mode == "hints" && sr.switches > static_cast<int>(c.tasks.size()) * 2);
   uint64_t opsh = 0;
   { std::string s = conc_to_json(c).at("tasks").dump() + conc_to_json(c).at("zones").dump(); opsh = hash_str(s); }
   out.distinct_key = c.mode == "template" ? sr.sig_hash : mix64(sr.trace_hash, opsh);
